@@ -152,6 +152,8 @@ func seededDirs(verif string) []string {
 
 // runOneSeeded: apply, load, run the property's rules (scoped as the property scopes them), collect violations that
 // are not violations of the unchanged tree.
+var seededAllRules = false
+
 func runOneSeeded(repo, dir string, baseline map[string]bool) seededResult {
 	id := filepath.Base(dir)
 	res := seededResult{ID: id}
@@ -180,7 +182,11 @@ func runOneSeeded(repo, dir string, baseline map[string]bool) seededResult {
 		res.Status, res.Detail = "broken", "does not type-check on today's tree: "+truncate(err.Error(), 160)
 		return res
 	}
-	for _, spec := range pr.Rules {
+	ruleSpecs := pr.Rules
+	if seededAllRules {
+		ruleSpecs = sortedKeys(rules)
+	}
+	for _, spec := range ruleSpecs {
 		rn, scope := spec, ""
 		if i := strings.Index(spec, "@"); i >= 0 {
 			rn, scope = spec[:i], spec[i+1:]
@@ -225,8 +231,10 @@ func cmdSeeded(args []string) int {
 	ids := fs.String("ids", "", "only these (comma separated, e.g. C01-A)")
 	props := fs.String("props", "", "only these properties")
 	worker := fs.Bool("worker", false, "")
+	allr := fs.Bool("allrules", false, "judge each change by every rule (any property), not only its own property's")
 	j := fs.Int("j", 12, "")
 	fs.Parse(args)
+	seededAllRules = *allr
 	var sel []string
 	for _, d := range seededDirs(*verif) {
 		id := filepath.Base(d)
@@ -285,7 +293,11 @@ func runSeededParallel(repo, verif string, dirs []string, workers int) []seededR
 			for _, d := range ch {
 				ids = append(ids, filepath.Base(d))
 			}
-			cmd := exec.Command(self, "seeded", "-worker", "-repo", repo, "-verif", verif, "-ids", strings.Join(ids, ","))
+			cmdArgs := []string{"seeded", "-worker", "-repo", repo, "-verif", verif, "-ids", strings.Join(ids, ",")}
+			if seededAllRules {
+				cmdArgs = append(cmdArgs, "-allrules")
+			}
+			cmd := exec.Command(self, cmdArgs...)
 			out, err := cmd.Output()
 			got := map[string]bool{}
 			for _, line := range strings.Split(string(out), "\n") {
